@@ -1,0 +1,5 @@
+//go:build !verif
+
+package merkle
+
+func verifNCPU(ncpu int) int { return ncpu }
